@@ -67,7 +67,7 @@ CONSTANTS
   NCtl = {c['NCtl']}
   SndOps = {{"S", "SR", "SC", "BYE"}}
   RcvOps = {{"RcR", "RcC", "RvR", "RfR", "RvC", "RfC"}}
-  CtlOps = {{"KX", "KY", "BX", "BY", "B0"}}
+  CtlOps = {{"KX", "KY", "BX", "BY", "B0", "CL"}}
   Deviations = {setstr(deviations)}
 VIEW view
 INVARIANTS TypeOK
@@ -218,6 +218,156 @@ def nontrivial(line_obj):
     return False
 
 
+TRACE_RULES = ["NothingBeforeKeys", "NoClearEgress", "NoClearIngress", "Explained"]
+STRESS = {"quick": dict(programs=400, reps=3), "thorough": dict(programs=6000, reps=4)}
+
+
+def write_trace_cfg(path, rules):
+    with open(path, "w") as f:
+        f.write(f"""SPECIFICATION TraceSpec
+CONSTANTS
+  Rules = {setstr(rules)}
+CONSTRAINT Furthest
+POSTCONDITION Accepted
+CHECK_DEADLOCK FALSE
+""")
+
+
+def validate_trace(ck, trace_path, rules, tag):
+    """TLC on Trace_SrtpGate; returns (result, index of the first event that cannot be consumed or None)."""
+    cfg = os.path.join(vlib.SPEC, f"Trace_SrtpGate_{tag}_{os.getpid()}.gen.cfg")
+    write_trace_cfg(cfg, rules)
+    rej = os.path.join(ck.dir, f"rejected_{tag}.{os.getpid()}.ndjson")
+    try:
+        res = vlib.tlc("Trace_SrtpGate", os.path.basename(cfg), timeout=900, tags=("REJECTED",), sinks={"REJECTED": rej},
+                       env={"TRACE": trace_path, "JAVA_TOOL_OPTIONS": "-Dtlc2.tool.queue.IStateQueue=StateDeque"},
+                       heap="4g", tag=f"Trace_SrtpGate_{tag}", seed_arg=False)
+    finally:
+        try:
+            os.remove(cfg)
+        except OSError:
+            pass
+    at = None
+    if os.path.exists(rej):
+        rows = vlib.read_ndjson(rej)
+        os.remove(rej)
+        if rows:
+            at = rows[0]["at"]
+    if res.get("timeout"):
+        raise vlib.ToolError("trace validation timed out")
+    if at is None and (res["errors"] or res["rc"] != 0):
+        vlib.log("\n".join(res["raw_tail"][-30:]))
+        raise vlib.ToolError(f"trace validation failed to run: {res['errors'][:2]}")
+    return res, at
+
+
+def programs_of(edges_path, limit):
+    """Project the racing model's simulated schedules onto the operations each task performs (the programs the
+    free-running stress executes); TLC's own output, deduplicated, longest first."""
+    seen = {}
+    with open(edges_path) as f:
+        for line in f:
+            o = json.loads(line)
+            prog = {"snd": [], "rcv": [], "ctl": []}
+            for e in o["pre"] + [o["act"]]:
+                if e[1]:
+                    prog[e[0]].append(e[1])
+            key = (o["rx"], o["ry"], tuple(prog["snd"]), tuple(prog["rcv"]), tuple(prog["ctl"]))
+            seen[key] = dict(rx=o["rx"], ry=o["ry"], **prog)
+    progs = sorted(seen.values(), key=lambda p: (-(len(p["snd"]) + len(p["rcv"]) + len(p["ctl"])), json.dumps(p, sort_keys=True)))
+    return progs[:limit]
+
+
+def stress_and_validate(ck, progs, tier, label):
+    """Free-running races of the programs on the real transports, every run logged (H7 gate events + harness events)
+    and the log validated by TLC against Trace_SrtpGate."""
+    n = nshards(tier)
+    pp = os.path.join(ck.dir, f"programs_{os.getpid()}.ndjson")
+    vlib.write_ndjson(pp, progs)
+    outs = [os.path.join(ck.dir, f"trace_{os.getpid()}.{i}.ndjson") for i in range(n)]
+
+    def one(i):
+        return vlib.run_bin("gate", ["stress", pp, outs[i], f"{i}/{n}"], timeout=3000,
+                            env={"GATE_STRESS_REPS": str(STRESS[tier]["reps"])})
+
+    with concurrent.futures.ThreadPoolExecutor(max_workers=n) as ex:
+        procs = list(ex.map(one, range(n)))
+    events = []
+    runs = 0
+    for i, p in enumerate(procs):
+        if p.returncode != 0:
+            raise vlib.ToolError(f"gate stress shard {i} failed rc={p.returncode}: {p.stderr[-1500:]}")
+        events += vlib.read_ndjson(outs[i])
+        os.remove(outs[i])
+    os.remove(pp)
+    # scenarios = maximal runs of events starting with a reset
+    scen = []
+    for e in events:
+        if e["ev"] == "reset":
+            scen.append([])
+        scen[-1].append(e)
+    runs = len(scen)
+    for sc in scen:
+        for e in sc:
+            if e["ev"] == "panic":
+                ck.divergence({"sub": "gate", "mode": "stress", "rule": "NoPanic", "what": e["what"][:80]},
+                              {"level": "stress", "rule": "NoPanic", "scenario": sc})
+    scen = [[e for e in sc if e["ev"] != "panic"] for sc in scen]
+    validated_events = 0
+    chunk_events = 25000
+    i = 0
+    chunk_no = 0
+    while i < len(scen):
+        chunk, cnt = [], 0
+        while i < len(scen) and (cnt == 0 or cnt + len(scen[i]) <= chunk_events):
+            chunk.append(scen[i])
+            cnt += len(scen[i])
+            i += 1
+        chunk_no += 1
+        for _attempt in range(6):
+            tp = os.path.join(ck.dir, f"trace_chunk_{os.getpid()}.ndjson")
+            vlib.write_ndjson(tp, [e for sc in chunk for e in sc])
+            res, at = validate_trace(ck, tp, TRACE_RULES, "all")
+            ck.add_tlc(res, f"{label}: trace validation chunk {chunk_no}")
+            os.remove(tp)
+            if at is None:
+                validated_events += sum(len(sc) for sc in chunk)
+                break
+            # locate the scenario and the rule: the same scenario alone, one rule at a time
+            pos = 0
+            bad = None
+            for k, sc in enumerate(chunk):
+                if pos < at <= pos + len(sc):
+                    bad = k
+                    break
+                pos += len(sc)
+            if bad is None:
+                raise vlib.ToolError(f"rejected position {at} outside the chunk")
+            sc = chunk[bad]
+            ev = sc[at - pos - 1]
+            broken = []
+            for r in TRACE_RULES:
+                tp1 = os.path.join(ck.dir, f"trace_one_{os.getpid()}.ndjson")
+                vlib.write_ndjson(tp1, sc)
+                _, at1 = validate_trace(ck, tp1, [r], "one")
+                os.remove(tp1)
+                if at1 is not None:
+                    broken.append(r)
+            rule = broken[0] if broken else "TraceShape"
+            rec = {"level": "stress", "rule": rule, "rules_broken": broken, "event": ev, "scenario": sc}
+            if rule in ("Explained", "TraceShape"):
+                ck.drift.append({"level": "stress", "field": rule, "event": ev})
+            else:
+                ck.divergence({"sub": "gate", "mode": "stress", "rule": rule, "ev": ev.get("ev"), "op": ev.get("op"),
+                               "out": ev.get("out"), "required": ev.get("req"), "has_session": ev.get("has"),
+                               "cls": ev.get("cls"), "sink": ev.get("sink")}, rec)
+            validated_events += sum(len(x) for x in chunk[:bad])
+            chunk = chunk[bad + 1:]
+            if not chunk:
+                break
+    return runs, len(events), validated_events
+
+
 def run(tier):
     ck = vlib.Check(PID, tier)
     vlib.build_harness(["gate", "gatepc"])
@@ -292,6 +442,14 @@ def run(tier):
                     ck.cov["samples"].append(f"race, required X={o['rx']} Y={o['ry']}: schedule " + " ".join(
                         f"{e[0]}:{e[1] or '.'}>{e[2]}" for e in o["pre"] + [o["act"]]) +
                         f" expects wire={o['exp'][0] or '-'} sinks={o['exp'][1] or '-'}")
+        if mode:
+            progs = programs_of(edges, STRESS[tier]["programs"])
+            runs, nev, nval = stress_and_validate(ck, progs, tier, label)
+            total += runs
+            ck.cov["evaluations"] += nev
+            ck.notes.append(f"{label}: {len(progs)} programs of the simulated schedules raced freely ({runs} runs, "
+                            f"{nev} logged events: H7 gate events, key installations, wire datagrams, deliveries); "
+                            f"{nval} events accepted by Trace_SrtpGate")
         ck.notes.append(f"{label}: {res['counts']['EDGE']} (state, task step) edges executed as exact schedules, "
                         f"{summ['steps']} steps, {summ['datagrams']} datagrams classified, {summ['deliveries']} deliveries "
                         f"traced, {summ['unspecified']} schedules cut at a step whose outcome the model leaves unspecified")
@@ -435,4 +593,36 @@ def selftest():
         os.remove(bp)
         if os.path.exists(op):
             os.remove(op)
+    # trace side: a recorded stress log is accepted; with one hook event dropped, or one field corrupted, it is rejected
+    # under the rule that speaks about it
+    ckt = vlib.Check(PID + "-selftest", "quick")
+    prog = [{"rx": True, "ry": False, "snd": ["SR", "SC", "BYE", "S"], "rcv": ["RcR", "RvR", "RfC", "RvC"],
+             "ctl": ["KX", "BY", "KY", "CL"]}]
+    pp = os.path.join(d, f"selftest_prog.{os.getpid()}.ndjson")
+    tp = os.path.join(d, f"selftest_trace.{os.getpid()}.ndjson")
+    vlib.write_ndjson(pp, prog)
+    p = vlib.run_bin("gate", ["stress", pp, tp], env={"GATE_STRESS_REPS": "2"})
+    os.remove(pp)
+    ev = vlib.read_ndjson(tp) if p.returncode == 0 else []
+    gi = next((i for i, e in enumerate(ev) if e["ev"] == "gate" and e["out"] == "protected"), None)
+    ai = next((i for i, e in enumerate(ev) if e["ev"] == "gate" and e["out"] == "accepted"), None)
+    variants = [("recorded", ev, None)]
+    if gi is not None:
+        variants.append(("hook-event-dropped", ev[:gi] + ev[gi + 1:], "Explained"))
+        variants.append(("outcome-corrupted-to-clear", ev[:gi] + [dict(ev[gi], out="clear")] + ev[gi + 1:], "NoClearEgress"))
+        variants.append(("session-seen-before-installation", [e for e in ev if e["ev"] != "keys_begin"], "NothingBeforeKeys"))
+    if ai is not None:
+        variants.append(("accepted-without-session", ev[:ai] + [dict(ev[ai], has=False)] + ev[ai + 1:], "NoClearIngress"))
+    for name, evs, rule in variants:
+        vlib.write_ndjson(tp, evs)
+        _, at = validate_trace(ckt, tp, TRACE_RULES, "selftest")
+        verdict = "accepted" if at is None else f"rejected at event {at}"
+        good = (at is None) == (rule is None)
+        if rule is not None and at is not None:
+            _, at1 = validate_trace(ckt, tp, [rule], "selftest1")
+            good = good and at1 is not None
+        print(f"selftest: trace {name}: {verdict} (expected {'accepted' if rule is None else 'rejected by ' + rule}): {good}")
+        ok = ok and good and len(ev) > 10
+    if os.path.exists(tp):
+        os.remove(tp)
     raise SystemExit(0 if ok else 2)
